@@ -483,4 +483,19 @@ func checkTreeHandedOver(r *Run, prog *Program, a *Anchors, pfx string) {
 		}
 	}
 	r.Check(pfx+".tree-handover", "Evaluate:dispatch-calls", prog.pos(a.EvaluateM.Pos()), n == 1, fmt.Sprintf("Evaluate calls the dispatcher %d times (expected once)", n))
+	// every return of Evaluate is the dispatcher's pair, unchanged
+	ps := NewPathSim(prog)
+	for _, sm := range ps.Run(a.EvaluateM) {
+		if sm.Ret == nil || len(sm.Results) != 2 {
+			r.Check(pfx+".tree-handover", "Evaluate:returns", prog.pos(a.EvaluateM.Pos()), false, "Evaluate panics or has an unexpected result shape")
+			continue
+		}
+		b, e := sm.Results[0], sm.Results[1]
+		ok := b.K == sRes && e.K == sRes && b.A == e.A && b.Idx == 0 && e.Idx == 1
+		if ok {
+			callee, _ := calleeOfSym(b.A)
+			ok = callee == a.Dispatch
+		}
+		r.Check(pfx+".tree-handover", "Evaluate:returns", prog.pos(sm.Ret.Pos()), ok, "Evaluate must return the dispatcher's (bool, error) pair unchanged on every path; returns ("+shortKey(b)+", "+shortKey(e)+")")
+	}
 }
